@@ -11,7 +11,7 @@ RULE = (
     "full product n x window_length x fh (every non-empty subset of {1..4}) x strategy "
     "(direct, recursive, multioutput, dirrec) x scitype (tabular, time-series) x exogenous "
     "columns {0,1,2} x series dtype {float, int64; rotated with the case index} x history {fit->predict, fit->update(batch, update_params False/True)->"
-    "predict}; index start rotated by case index+seed. Oracle: recording regressors + a "
+    "predict, refit of a forecaster used before with another window length}; index start rotated by case index+seed. Oracle: recording regressors + a "
     "plain-loop reference tabulariser + tag-decoding leak monitor. non-trivial = feasible "
     "configuration whose training rows and prediction inputs were compared."
 )
@@ -35,7 +35,7 @@ def gen_cases(tier, seed):
                 for strat in STRATS:
                     for sci in ("tab", "ts"):
                         for nx in (0, 1, 2):
-                            for hist in ("fp", "fup", "fUp"):
+                            for hist in ("fp", "fup", "fUp", "Rfp"):
                                 i += 1
                                 yield dict(n=n, W=W, fh=fh, strategy=strat, sci=sci, nx=nx,
                                            hist=hist, start=7 if (i + seed) % 2 else 0,
@@ -88,10 +88,15 @@ def run_case(case):
     H = fh[-1]
     doubles.reset_tokens()
     reg = doubles.RecRegressor() if sci == "tab" else doubles.RecTSRegressor()
-    extra = 2 if hist != "fp" else 0
+    extra = 2 if hist in ("fup", "fUp") else 0
     y_all, X_all = _data(n, nx, start, extra, case.get("dtype", "float"))
     y, X = y_all.iloc[:n], (None if X_all is None else X_all.iloc[:n])
     f = make_reduction(reg, strategy=strat, window_length=W)
+    if hist == "Rfp":
+        # the same forecaster object was used before with another window length
+        f = make_reduction(reg, strategy=strat, window_length=W + 1)
+        call(lambda: f.fit(y.copy(), None if X is None else X.copy(), fh=fh))
+        f.set_params(window_length=W)
     one_step = strat == "recursive"
     feasible = (W + (1 if one_step else H) <= n)
     o = call(lambda: f.fit(y.copy(), None if X is None else X.copy(), fh=fh))
@@ -171,7 +176,7 @@ def run_case(case):
 
     # ---- optional update
     n_eff = n
-    if hist != "fp":
+    if hist in ("fup", "fUp"):
         up = hist == "fUp"
         yb = y_all.iloc[n:n + 2]
         Xb = None if X_all is None else X_all.iloc[n:n + 2]
